@@ -74,7 +74,7 @@ func init() {
 			"shared *Element (affine, λ-scaled, identity forms), shared *Scalar, shared message/DST/encoding slices in all layouts (len=cap, spare capacity 1/8/64, interior sub-slice, zero-length of a non-empty array, DST lengths on both sides of 255), shared [32]byte arrays. " +
 			"Each program starts by calling every function once in the same order, and half of the runs are concurrent-first (nothing of the library has run in the process before the goroutines start), so that first uses coincide. Every exported function and method is in the mix (the exported map-to-curve functions SSWU / IsogenySecp256k13iso / Secp256Polynomial with the exceptional inputs, writes into returned slices, ground-truth probes whose expected values come from the oracle rather than from the solo pass, constructors, Base, Identity, Set, Copy, Add, Subtract, Double, Negate, Multiply, Equal, IsIdentity, all encoders/decoders, HashToGroup, EncodeToGroup, HashToScalar, all scalar operations, Pow, CSelect, LessOrEqual, Bits, Random, Order). " +
 			"Oracle: zero race-detector reports with a frame of the module under test; every call's result equals the result of the same call sequence run alone beforehand; the package-level identity and error variables are unchanged. " +
-			"Two hash storms (16 and 48 goroutines hashing with shared short and several different oversize DSTs, results compared with the oracle). A storm of 16 goroutines x thousands of concurrent Random calls on the real entropy source must not return any scalar twice. The detector is armed first with a deliberate race in harness code and the run is inconclusive if that is not reported. evaluations = API calls made concurrently; non-trivial = calls taking a shared argument; distinct = distinct (function, shared-argument) pairs exercised concurrently.",
+			"Two hash storms (16 and 48 goroutines hashing with shared short and several different oversize DSTs, results compared with the oracle). A storm of 16 goroutines x thousands of concurrent Random calls on the real entropy source must not return any scalar twice. Two fault storms (16 goroutines on 16 CPUs, 4 on 2): three single reads of the entropy source fail while all goroutines draw random scalars; the number of failing Random calls may not exceed the number of failed reads, and a second wave after the faults must be clean. The shared table contains zero values of Element and Scalar (never passed through a constructor). The detector is armed first with a deliberate race in harness code and the run is inconclusive if that is not reported. evaluations = API calls made concurrently; non-trivial = calls taking a shared argument; distinct = distinct (function, shared-argument) pairs exercised concurrently.",
 		Assume: []string{
 			"the race detector reports only conflicting accesses it actually observes without an intervening happens-before edge; interleavings are sampled, not enumerated",
 			"a library without goroutines or locks can only violate this through a write into an argument or a global, which is a single conflicting access that any schedule exposes",
